@@ -11,6 +11,300 @@ use crate::props::execs;
 
 pub struct C17;
 
+/// Positions of `store_temp` / `store_local` statements (candidates for elision), ordered by how
+/// likely the stored value is a *deferred* expression: stores of values produced by felt252
+/// arithmetic first (locals before temporaries), then the other locals, then the other temporaries.
+pub fn store_positions(p: &cairo_lang_sierra::program::Program) -> Vec<usize> {
+    use cairo_lang_sierra::program::Statement;
+    let generic: std::collections::HashMap<u64, &str> = p.libfunc_declarations.iter().map(|d| (d.id.id, d.long_id.generic_id.0.as_str())).collect();
+    // Variables produced by deferred arithmetic (per whole program: variable ids are per function,
+    // a collision only changes the ordering).
+    let mut deferred: std::collections::HashSet<u64> = Default::default();
+    for s in &p.statements {
+        if let Statement::Invocation(inv) = s {
+            if matches!(generic.get(&inv.libfunc_id.id), Some(g) if g.starts_with("felt252_add") || g.starts_with("felt252_sub") || g.starts_with("felt252_mul") || g.starts_with("bounded_int_add") || g.starts_with("bounded_int_sub") || g.starts_with("bounded_int_mul")) {
+                for b in &inv.branches {
+                    for r in &b.results {
+                        deferred.insert(r.id);
+                    }
+                }
+            }
+        }
+    }
+    let mut ranked: Vec<(u8, usize)> = vec![];
+    for (i, s) in p.statements.iter().enumerate() {
+        if let Statement::Invocation(inv) = s {
+            let g = generic.get(&inv.libfunc_id.id).copied().unwrap_or("");
+            let local = g == "store_local";
+            if !(local || g == "store_temp") {
+                continue;
+            }
+            let input = if local { inv.args.get(1) } else { inv.args.first() };
+            let d = input.map(|v| deferred.contains(&v.id)).unwrap_or(false);
+            ranked.push((match (d, local) { (true, true) => 0, (true, false) => 2, (false, true) => 1, (false, false) => 3 }, i));
+        }
+    }
+    ranked.sort();
+    ranked.into_iter().map(|(_, i)| i).collect()
+}
+
+fn libfunc_id_for(
+    q: &mut cairo_lang_sierra::program::Program,
+    generic: &str,
+    args: Vec<cairo_lang_sierra::program::GenericArg>,
+) -> cairo_lang_sierra::ids::ConcreteLibfuncId {
+    use cairo_lang_sierra::ids::ConcreteLibfuncId;
+    use cairo_lang_sierra::program::{ConcreteLibfuncLongId, LibfuncDeclaration};
+    if let Some(d) = q.libfunc_declarations.iter().find(|d| d.long_id.generic_id.0 == generic && d.long_id.generic_args == args) {
+        return d.id.clone();
+    }
+    let long_id = ConcreteLibfuncLongId { generic_id: generic.into(), generic_args: args };
+    let id = ConcreteLibfuncId::from_string(format!("{long_id}"));
+    q.libfunc_declarations.push(LibfuncDeclaration { id: id.clone(), long_id });
+    id
+}
+
+/// The program with the store at `idx` elided: `store_temp<T>(x) -> (y)` becomes `rename<T>(x) -> (y)`;
+/// `store_local<T>(loc, x) -> (y)` becomes `drop<Uninitialized<T>>(loc); rename<T>(x) -> (y)`. The
+/// value is the same, but it is no longer materialised - whatever reference expression it had (a
+/// deferred operation over ap-based cells, ..) must stay valid until its use, or the compiler must
+/// refuse the program.
+pub fn elide_store(p: &cairo_lang_sierra::program::Program, idx: usize) -> Option<cairo_lang_sierra::program::Program> {
+    use cairo_lang_sierra::program::{BranchInfo, BranchTarget, GenericArg, Invocation, Statement, StatementIdx};
+    let mut q = p.clone();
+    let Statement::Invocation(inv) = p.statements.get(idx)? else { return None };
+    let decl = p.libfunc_declarations.iter().find(|d| d.id == inv.libfunc_id)?;
+    let args = decl.long_id.generic_args.clone();
+    let rename = libfunc_id_for(&mut q, "rename", args.clone());
+    if decl.long_id.generic_id.0 == "store_temp" {
+        let Statement::Invocation(m) = q.statements.get_mut(idx)? else { return None };
+        m.libfunc_id = rename;
+        return Some(q);
+    }
+    // store_local: two statements replace one.
+    let GenericArg::Type(t) = args.first()? else { return None };
+    let uninit = p.type_declarations.iter().find(|d| d.long_id.generic_id.0 == "Uninitialized" && d.long_id.generic_args == vec![GenericArg::Type(t.clone())])?.id.clone();
+    let drop = libfunc_id_for(&mut q, "drop", vec![GenericArg::Type(uninit)]);
+    if inv.args.len() != 2 || inv.branches.len() != 1 {
+        return None;
+    }
+    let drop_stmt = Statement::Invocation(Invocation {
+        libfunc_id: drop,
+        args: vec![inv.args[0].clone()],
+        branches: vec![BranchInfo { target: BranchTarget::Fallthrough, results: vec![] }],
+    });
+    let rename_stmt = Statement::Invocation(Invocation { libfunc_id: rename, args: vec![inv.args[1].clone()], branches: inv.branches.clone() });
+    q.statements[idx] = drop_stmt;
+    q.statements.insert(idx + 1, rename_stmt);
+    // Everything after idx moved down by one.
+    for (i, s) in q.statements.iter_mut().enumerate() {
+        if i == idx + 1 {
+            // The rename keeps the original branches: their absolute targets shift as well.
+        }
+        if let Statement::Invocation(m) = s {
+            for b in m.branches.iter_mut() {
+                if let BranchTarget::Statement(StatementIdx(t)) = &mut b.target {
+                    if *t > idx {
+                        *t += 1;
+                    }
+                }
+            }
+        }
+    }
+    for f in q.funcs.iter_mut() {
+        if f.entry_point.0 > idx {
+            f.entry_point = StatementIdx(f.entry_point.0 + 1);
+        }
+    }
+    Some(q)
+}
+
+// ---- generated Sierra data-flow programs ----------------------------------------------------------
+
+const SUM_TO: &str = "\
+disable_ap_tracking() -> ();
+dup<felt252>([0]) -> ([0], [1]);
+felt252_is_zero([1]) { fallthrough() 8([2]) };
+branch_align() -> ();
+drop<felt252>([0]) -> ();
+felt252_const<0>() -> ([3]);
+store_temp<felt252>([3]) -> ([3]);
+return([3]);
+branch_align() -> ();
+drop<NonZero<felt252>>([2]) -> ();
+dup<felt252>([0]) -> ([0], [4]);
+felt252_const<1>() -> ([5]);
+felt252_sub([4], [5]) -> ([6]);
+store_temp<felt252>([6]) -> ([6]);
+function_call<user@sum_to>([6]) -> ([7]);
+felt252_add([0], [7]) -> ([8]);
+store_temp<felt252>([8]) -> ([8]);
+return([8]);
+";
+
+/// A hand-written-style Sierra program: `main(a, b)` is a random data flow over felt252 values
+/// (constants, dup, add / sub / mul, optional store_temp, drops) with calls to the recursive
+/// `sum_to` (a call with unknown ap change) in between, so that deferred and temporary values
+/// are alive across calls. Returns (program text, reference value of main(a, b)).
+pub fn gen_dataflow(ch: &mut Choices, a: &num_bigint::BigInt, b: &num_bigint::BigInt) -> (String, num_bigint::BigInt) {
+    use num_bigint::BigInt;
+    use num_integer::Integer;
+    let p = crate::gens::prog::prime();
+    let mut body = String::new();
+    let mut live: Vec<(u64, BigInt)> = vec![(0, a.mod_floor(&p)), (1, b.mod_floor(&p))];
+    let mut next = 2u64;
+    let mut consts: std::collections::BTreeSet<u64> = Default::default();
+    let n = 4 + ch.below(10);
+    let mut calls = 0;
+    for _ in 0..n {
+        match ch.weighted(&[2, 3, 5, 3, 2, 1]) {
+            0 => {
+                let k = ch.below(9) as u64;
+                consts.insert(k);
+                body.push_str(&format!("felt252_const<{k}>() -> ([{next}]);\n"));
+                live.push((next, BigInt::from(k)));
+                next += 1;
+            }
+            1 => {
+                let i = ch.below(live.len());
+                let (v, x) = live[i].clone();
+                body.push_str(&format!("dup<felt252>([{v}]) -> ([{v}], [{next}]);\n"));
+                live.push((next, x));
+                next += 1;
+            }
+            2 if live.len() >= 2 => {
+                let i = ch.below(live.len());
+                let (va, xa) = live.remove(i);
+                let j = ch.below(live.len());
+                let (vb, xb) = live.remove(j);
+                let (op, r) = match ch.below(3) {
+                    0 => ("felt252_add", (&xa + &xb).mod_floor(&p)),
+                    1 => ("felt252_sub", (&xa - &xb).mod_floor(&p)),
+                    _ => ("felt252_mul", (&xa * &xb).mod_floor(&p)),
+                };
+                body.push_str(&format!("{op}([{va}], [{vb}]) -> ([{next}]);\n"));
+                live.push((next, r));
+                next += 1;
+            }
+            3 => {
+                let i = ch.below(live.len());
+                let v = live[i].0;
+                body.push_str(&format!("store_temp<felt252>([{v}]) -> ([{v}]);\n"));
+            }
+            4 if calls < 3 => {
+                calls += 1;
+                let k = ch.below(5) as u64;
+                consts.insert(k);
+                body.push_str(&format!("felt252_const<{k}>() -> ([{next}]);\nstore_temp<felt252>([{next}]) -> ([{next}]);\nfunction_call<user@sum_to>([{next}]) -> ([{}]);\n", next + 1));
+                live.push((next + 1, BigInt::from(k * (k + 1) / 2)));
+                next += 2;
+            }
+            _ if live.len() >= 2 => {
+                let i = ch.below(live.len());
+                let (v, _) = live.remove(i);
+                body.push_str(&format!("drop<felt252>([{v}]) -> ();\n"));
+            }
+            _ => {}
+        }
+    }
+    // Fold what is left into one value.
+    while live.len() >= 2 {
+        let (va, xa) = live.remove(0);
+        let (vb, xb) = live.remove(0);
+        if ch.chance(1, 3) {
+            body.push_str(&format!("store_temp<felt252>([{va}]) -> ([{va}]);\n"));
+        }
+        body.push_str(&format!("felt252_add([{va}], [{vb}]) -> ([{next}]);\n"));
+        live.insert(0, (next, (&xa + &xb).mod_floor(&p)));
+        next += 1;
+    }
+    let (v, x) = live[0].clone();
+    body.push_str(&format!("store_temp<felt252>([{v}]) -> ([{v}]);\nreturn([{v}]);\n"));
+    consts.insert(0);
+    consts.insert(1);
+    let mut text = String::from(
+        "type felt252 = felt252 [storable: true, drop: true, dup: true, zero_sized: false];\ntype NonZero<felt252> = NonZero<felt252> [storable: true, drop: true, dup: true, zero_sized: false];\n\nlibfunc disable_ap_tracking = disable_ap_tracking;\nlibfunc dup<felt252> = dup<felt252>;\nlibfunc felt252_is_zero = felt252_is_zero;\nlibfunc branch_align = branch_align;\nlibfunc drop<felt252> = drop<felt252>;\nlibfunc store_temp<felt252> = store_temp<felt252>;\nlibfunc drop<NonZero<felt252>> = drop<NonZero<felt252>>;\nlibfunc felt252_sub = felt252_sub;\nlibfunc felt252_add = felt252_add;\nlibfunc felt252_mul = felt252_mul;\nlibfunc function_call<user@sum_to> = function_call<user@sum_to>;\n",
+    );
+    for k in &consts {
+        text.push_str(&format!("libfunc felt252_const<{k}> = felt252_const<{k}>;\n"));
+    }
+    text.push('\n');
+    text.push_str(SUM_TO);
+    text.push_str(&body);
+    text.push_str("\nsum_to@0([0]: felt252) -> (felt252);\nmain@18([0]: felt252, [1]: felt252) -> (felt252);\n");
+    (text, x)
+}
+
+/// Ok(Some(true)) accepted and equal, Ok(Some(false)) rejected, Err = violation.
+pub fn judge_dataflow(text: &str, a: &num_bigint::BigInt, b: &num_bigint::BigInt, want: &num_bigint::BigInt) -> Result<Option<bool>, (String, String)> {
+    use cairo_lang_runner::{Arg, RunResultValue, SierraCasmRunner};
+    let Some(program) = crate::core::sierra::parse(text) else { return Ok(None) };
+    let runner = match crate::core::panics::catch(|| SierraCasmRunner::new(program, None, Default::default(), None)) {
+        Ok(Ok(r)) => r,
+        Ok(Err(_)) => return Ok(Some(false)),
+        Err(_) => return Ok(None), // panics on untrusted Sierra are C14's subject
+    };
+    let Ok(f) = runner.find_function("main") else { return Ok(None) };
+    let args = vec![Arg::Value(crate::core::exec::bigint_to_felt(a)), Arg::Value(crate::core::exec::bigint_to_felt(b))];
+    match crate::core::panics::catch(|| runner.run_function_with_starknet_context(f, args, None, Default::default())) {
+        Ok(Ok(r)) => match r.value {
+            RunResultValue::Success(v) if v.len() == 1 => {
+                let got = crate::core::exec::felt_to_bigint(&v[0]);
+                if got == *want {
+                    Ok(Some(true))
+                } else {
+                    Err(("accepted-sierra-computes-wrong-value".into(), format!("the compiler accepts the program but main({a}, {b}) returns {got}; its data flow prescribes {want} (a value did not stay reachable across a call)")))
+                }
+            }
+            other => Err(("accepted-sierra-unexpected-result".into(), format!("main returns {other:?}"))),
+        },
+        Ok(Err(e)) => Err(("accepted-sierra-run-fails".into(), format!("the compiler accepts the program but the run fails: {}", crate::core::driver::truncate(&format!("{e}"), 200)))),
+        Err(_) => Ok(None),
+    }
+}
+
+pub enum Elision {
+    Rejected,
+    Same,
+    /// (signature, description)
+    Differs(String, String),
+}
+
+/// Compiles and runs one store-elision mutant and compares with the original's result.
+pub fn judge_elision(
+    c: &crate::core::exec::Compiled,
+    f: &cairo_lang_sierra::program::Function,
+    args: &[cairo_lang_runner::Arg],
+    gas: Option<usize>,
+    meta: MetaCfg,
+    honest: &crate::oracle::value::Norm,
+    idx: usize,
+) -> Elision {
+    use crate::oracle::value::{self, Norm};
+    let Some(q) = elide_store(c.builder.sierra_program(), idx) else { return Elision::Rejected };
+    let built = crate::core::panics::catch(|| crate::core::exec::build(q, meta));
+    let Ok(Ok(cq)) = built else { return Elision::Rejected };
+    let Some(fq) = cq.builder.sierra_program().funcs.iter().find(|g| g.id == f.id).cloned() else { return Elision::Rejected };
+    match execs::run(&cq, &fq, args, gas) {
+        Ok(e) => {
+            let n = value::normalize(&cq, &fq, &e);
+            if n == *honest || n == Norm::Undecodable || value::is_out_of_gas(&n) || value::is_out_of_gas(honest) {
+                Elision::Same
+            } else {
+                Elision::Differs(
+                    "store-elision-changes-result".into(),
+                    format!("with the store at statement {idx} elided (store_temp -> rename, store_local -> drop + rename) the program is still accepted but gives {:?} instead of {:?}: a value addressed relative to ap did not stay reachable", n, honest),
+                )
+            }
+        }
+        Err(crate::core::exec::ExecErr::Vm(m)) => Elision::Differs(
+            "store-elision-breaks-run".into(),
+            format!("with the store at statement {idx} elided the program is still accepted but the VM fails: {}", crate::core::driver::truncate(&m, 200)),
+        ),
+        Err(_) => Elision::Rejected,
+    }
+}
+
 impl Prop for C17 {
     fn id(&self) -> &'static str {
         "C17"
@@ -21,8 +315,14 @@ impl Prop for C17 {
          trace is walked with a call stack driven by the instructions (call pushes, ret pops; pcs beyond the \
          instruction list - const segments, footer - are bare rets); for every popped frame of a function \
          with a declared ap change k: ap_at_ret - ap_at_entry == k; every executed code pc is an instruction \
-         boundary inside exactly one statement range. Non-trivial = a run with >= 1 checked frame at call \
-         depth >= 2; distinct = hash(source, function, arguments)."
+         boundary inside exactly one statement range. Reachability: per case, up to 10 (quick) / 40 (thorough) mutants in which one store is elided (store_temp<T> -> rename<T>; \
+         store_local<T> -> drop of the local + rename<T>: the value is no longer materialised); if the compiler still accepts the program it must \
+         return the same result on the same arguments (a stale ap-relative reference would not); functions that \
+         read the gas counter are excluded (a saved step legitimately changes what they return). A third of the cases are generated hand-written-style Sierra programs: main(a, b) is a random \
+         felt252 data flow (constants, dup, add / sub / mul, optional store_temp, drops) with up to three calls \
+         to a recursive function (unknown ap change) in between; if the compiler accepts the program, running \
+         it must give the value an own evaluation of the data flow prescribes. Non-trivial = \
+         a run with >= 1 checked frame at call depth >= 2; distinct = hash(source, function, arguments)."
             .into()
     }
     fn assumptions(&self) -> Vec<String> {
@@ -31,6 +331,7 @@ impl Prop for C17 {
     fn worker(&self, ctx: &mut WorkerCtx) {
         let snippets = execs::load_snippets();
         let cases = ctx.tier.pick(40, 500);
+        let elisions = ctx.tier.pick(10usize, 40);
         let mut db = FrontCfg::default_cfg().new_db(Plugins::Default);
         let mut n = 0u64;
         ctx.shrink_iters = 150;
@@ -38,6 +339,31 @@ impl Prop for C17 {
             n += 1;
             if n % 60 == 0 {
                 db = FrontCfg::default_cfg().new_db(Plugins::Default);
+            }
+            if ch.chance(1, 3) {
+                // Generated Sierra data-flow program (values alive across calls with unknown ap change).
+                let vals = [num_bigint::BigInt::from(ch.below(50)), num_bigint::BigInt::from(100 + ch.below(1000)), crate::gens::prog::prime() - 1, num_bigint::BigInt::from(ch.u64())];
+                let a = vals[ch.below(4)].clone();
+                let b = vals[ch.below(4)].clone();
+                let (text, want) = gen_dataflow(ch, &a, &b);
+                let art = json!({"kind": "dataflow", "sierra": text, "a": a.to_string(), "b": b.to_string(), "want": want.to_string()});
+                cc.start(|| art.clone());
+                return match judge_dataflow(&text, &a, &b, &want) {
+                    Ok(Some(true)) => {
+                        cc.stats().eval();
+                        cc.stats().count("dataflow_programs_accepted_and_correct");
+                        if text.matches("function_call<user@sum_to>").count() > 2 {
+                            cc.stats().count("dataflow_programs_with_calls_accepted");
+                        }
+                        Verdict::Pass
+                    }
+                    Ok(Some(false)) => {
+                        cc.stats().count("dataflow_programs_rejected_by_compiler");
+                        Verdict::Pass
+                    }
+                    Ok(None) => Verdict::Skip("not judged"),
+                    Err((sig, what)) => Verdict::fail(sig, what, art),
+                };
             }
             let cfg = if ch.bool() { FrontCfg::default_cfg() } else { FrontCfg::generate(ch) };
             let solver_choice = ch.below(6);
@@ -47,6 +373,7 @@ impl Prop for C17 {
             let src_hash = hash_str(&case.source);
             let mut layout_cache: Option<Result<trace::Layout, String>> = None;
             let mut sampled = false;
+            let mut elided = false;
             execs::drive(cc, &mut Choices::new(sweep_seed.clone()), &mut db, &case, &cfg, meta, 0, &mut |cc, c, f, args, _gas, r| {
                 let Ok(e) = r else { return None };
                 if layout_cache.is_none() {
@@ -75,6 +402,25 @@ impl Prop for C17 {
                             sampled = true;
                             st.sample(1, || json!({"case": execs::describe(&case, f, args), "frames_checked": rep.frames_checked, "max_depth": rep.max_depth}));
                         }
+                        // Store-elision mutants (once per case, on its first successful run).
+                        if !elided && meta.linear_ap && !crate::oracle::value::uses_gas_introspection(c) {
+                            elided = true;
+                            let honest = crate::oracle::value::normalize(c, f, e);
+                            if honest != crate::oracle::value::Norm::Undecodable {
+                                let pos = store_positions(c.builder.sierra_program());
+                                let mut pick = Choices::new(sweep_seed.clone());
+                                // `pos` is ranked (deferred values and locals first): most of the budget
+                                // follows the ranking, the rest goes to random positions.
+                                for k in 0..elisions.min(pos.len()) {
+                                    let idx = if k < elisions * 7 / 10 { pos[k] } else { pos[pick.below(pos.len())] };
+                                    match judge_elision(c, f, args, _gas, meta, &honest, idx) {
+                                        Elision::Rejected => cc.stats().count("store_elision_rejected_by_compiler"),
+                                        Elision::Same => cc.stats().count("store_elision_accepted_same_result"),
+                                        Elision::Differs(sig, what) => return Some((sig, what)),
+                                    }
+                                }
+                            }
+                        }
                         None
                     }
                     Err(m) => Some((if m.contains("declared ap change") { "ap-change-mismatch".to_string() } else { "pc-outside-statements".to_string() }, m)),
@@ -83,6 +429,13 @@ impl Prop for C17 {
         });
     }
     fn replay(&self, artefact: &Value) -> Verdict {
+        if artefact["kind"].as_str() == Some("dataflow") {
+            let g = |k: &str| -> num_bigint::BigInt { artefact[k].as_str().and_then(|s| s.parse().ok()).unwrap_or_default() };
+            return match judge_dataflow(artefact["sierra"].as_str().unwrap_or(""), &g("a"), &g("b"), &g("want")) {
+                Ok(_) => Verdict::Pass,
+                Err((sig, what)) => Verdict::fail(sig, what, artefact.clone()),
+            };
+        }
         match execs::from_artefact(artefact) {
             Ok((c, f, args, gas)) => {
                 let layout = match trace::check_layout(&c) {
@@ -92,7 +445,18 @@ impl Prop for C17 {
                 match execs::run(&c, &f, &args, gas) {
                     Ok(e) => match trace::check_ap(&c, &layout, &e, &f) {
                         Err(m) => Verdict::fail(if m.contains("declared ap change") { "ap-change-mismatch" } else { "pc-outside-statements" }, m, json!({})),
-                        Ok(_) => Verdict::Pass,
+                        Ok(_) => {
+                            let meta = MetaCfg { linear_gas: artefact["linear_gas"].as_bool().unwrap_or(true), linear_ap: artefact["linear_ap"].as_bool().unwrap_or(true) };
+                            let honest = crate::oracle::value::normalize(&c, &f, &e);
+                            if honest != crate::oracle::value::Norm::Undecodable && !crate::oracle::value::uses_gas_introspection(&c) {
+                                for idx in store_positions(c.builder.sierra_program()).into_iter().take(400) {
+                                    if let Elision::Differs(sig, what) = judge_elision(&c, &f, &args, gas, meta, &honest, idx) {
+                                        return Verdict::fail(sig, what, json!({}));
+                                    }
+                                }
+                            }
+                            Verdict::Pass
+                        }
                     },
                     _ => Verdict::Pass,
                 }
